@@ -147,6 +147,8 @@ class ClassWorld:
                     depth -= 1
             if k == 'kref':
                 op['same'] = rng.random() < 0.4
+            if k == 'ec_flagflip':
+                op['lookup'] = rng.random() < 0.5
             if k == 'new' or k == 'newk':
                 op['kw'] = [p for p in used if p not in ('r',) and rng.random() < 0.3]
             if k == 'addp_bad':
@@ -1033,8 +1035,14 @@ class _Run:
                 try:
                     o.k = new
                 finally:
-                    for pobj, flag in flags:
-                        pobj.constant = flag
+                    if op.get('lookup'):
+                        # (the variant that finds the Parameters again by name: by now the instance has its own object for k,
+                        # and the class-level flag that was switched off is not found again)
+                        for pobj, flag in flags:
+                            o.param.objects('existing')[pobj.name].constant = flag
+                    else:
+                        for pobj, flag in flags:
+                            pobj.constant = flag
             self.ensure_copy(i, 'k')
             m['values']['k'] = new
             m['linked_k'] = False
@@ -1046,6 +1054,9 @@ class _Run:
             else:
                 self.viol('C14.flags', f"after edit_constant(I{i}) - inside which the constant flags were flipped by hand and I{i}.k was assigned - "
                                        f"I{i}.k can still be rebound (obj.param.k.constant is {o.param.k.constant})")
+            if not type(o).param.objects(instance=False)['k'].constant:
+                self.viol('C14.flags', f"after edit_constant(I{i}) - inside which the constant flags were flipped by hand "
+                                       f"({'restored by name' if op.get('lookup') else 'restored'}) - the class-level Parameter k is no longer constant")
         elif k == 'ecblock' and has_inst:
             # a complete edit_constant block on an instance (entered internally by reference syncing too): no effect on any namespace
             with param.parameterized.edit_constant(self.insts[i]):
